@@ -81,6 +81,19 @@ def _raise_table_error(x):
     raise _TableError('no such table')
 
 
+class WalkNode:
+    def __init__(self, v, nxt):
+        self.v, self.nxt = v, nxt
+
+    def __repr__(self):
+        return 'WalkNode(%r)' % self.v
+
+
+_WALK_GLOMMER = Glommer()
+_WALK_GLOMMER.register(WalkNode, iterate=lambda n: iter(['walked', n.v]), keys=False, get=False)
+OWN_REGISTRY = {name: _WALK_GLOMMER.glom for name in ('walknode-star-own-registry', 'walknode-starstar-own-registry', 'walknode-list-own-registry')}
+
+
 def _double(x):
     return x * 2
 
@@ -155,6 +168,14 @@ def pool():
     # two different exception classes with the SAME __name__, raised by different specs of one process
     add('same-named-error-1', data, lambda: ('a.d', _raise_codec_error))
     add('same-named-error-2', data, lambda: ('a.d', _raise_table_error))
+    # the SAME class walked through two registries that disagree about it: the module-level one (a plain attribute object)
+    # and a private Glommer that iterates it (pairs named *-own-registry run on that Glommer, in baseline and history alike)
+    nodes = lambda: {'n': WalkNode(1, WalkNode(2, None)), 'plain': {'k': 1}}
+    add('walknode-star-default-registry', nodes, lambda: 'n.*')
+    add('walknode-star-own-registry', nodes, lambda: 'n.*')
+    add('walknode-starstar-default-registry', nodes, lambda: '**')
+    add('walknode-starstar-own-registry', nodes, lambda: '**')
+    add('walknode-list-own-registry', nodes, lambda: ('n', [T]))
     add('spec', data, lambda: Spec(('a', 'd')))
     add('ref', lambda: {'v': 1, 'kids': [{'v': 2, 'kids': []}, {'v': 3, 'kids': [{'v': 4, 'kids': []}]}]},
         lambda: Ref('n', {'v': 'v', 'kids': ('kids', [Ref('n')])}))
@@ -275,6 +296,8 @@ def run_pair(idx, P, spec=None, via=None):
     target = mk_t()
     spec = mk_s() if spec is None else spec
     scope = mk_scope()
+    if name in OWN_REGISTRY:
+        return target, spec, scope, call(OWN_REGISTRY[name], target, spec)
     fn = via or glom_pkg.glom
     return target, spec, scope, call(fn, target, spec, scope=scope)
 
@@ -406,7 +429,9 @@ def history(col, rng, P, baselines, length, contract):
             spec = mk_s() if spec is None else spec
             scope = mk_scope()
             snaps = (snapshot(target), snapshot(spec), snapshot(scope))
-            if via is None:
+            if name in OWN_REGISTRY:
+                o = call(OWN_REGISTRY[name], target, spec)       # (these pairs always run on their own Glommer, also in the baseline)
+            elif via is None:
                 o = call(glom_pkg.glom, target, spec, scope=scope)
             else:
                 sc = dict(scope)
